@@ -202,15 +202,17 @@ func (ctrler *EVMCtrler) ExecuteTrx(ctx *ctrlertypes.TrxContext) xerrors.XError 
 		return xerrors.From(evmResult.Err)
 	}
 
-	ctrler.stateDBWrapper.Finish()
-
 	// Update the state with pending changes.
+	// This MUST be done before `Finish()` copies balances and nonces to the account ledger:
+	// an account removed by the EVM (SELFDESTRUCT) has nonce 0 only after it is finalised.
 	blockNumber := uint256.NewInt(uint64(ctx.Height)).ToBig()
 	if ctrler.ethChainConfig.IsByzantium(blockNumber) {
 		ctrler.stateDBWrapper.Finalise(true)
 	} else {
 		ctrler.lastRootHash = ctrler.stateDBWrapper.IntermediateRoot(ctrler.ethChainConfig.IsEIP158(blockNumber)).Bytes()
 	}
+
+	ctrler.stateDBWrapper.Finish()
 
 	// Gas is already applied to accounts by buyGas and refundGas of EVM.
 	// the `EVM` handles nonce, amount and gas.
